@@ -1,8 +1,11 @@
 #!/bin/sh
-# Offline build of the harness in the profiles the quick checks use.
-# (Sanitizer/Miri profiles are built on first use by the checks that need them;
-# building them here keeps the first quick check fast.)
+# Offline build of the harness in the profiles the quick checks use (overflow-checked,
+# release, ASan) plus the Miri build of the same binary. Profiles needed only by thorough
+# tiers (TSan, fuzz target) are built on first use.
 set -e
 cd "$(dirname "$0")"
 export CARGO_NET_OFFLINE=true
 ./check build chk rel asan
+# Miri: build the interpreter's copy of the harness (the trailing command is a no-op that exits 2)
+(cd harness && MIRIFLAGS="-Zmiri-disable-isolation" cargo +nightly miri run --offline --target-dir target/miri -- list-nothing >/dev/null 2>&1 || true)
+echo "setup done"
